@@ -253,8 +253,11 @@ class DispatchingShell(cmd.Cmd):
 
     def onecmd(self, line):
         cmd, arg, line = self.parseline(line)
-        if not cmd:
+        if not line:
             return
+        if not cmd:
+            # Not a command: a statement starting with a comment or a parenthesis.
+            return self.execute(line)
         if not line.startswith('.'):
             cmd = cmd.lower()
             if cmd not in {'clear', 'errors', 'exit', 'help', 'history', 'parse', 'quit', 'run', 'set'}:
